@@ -132,7 +132,10 @@ impl Datagram {
     #[verifier::external_body]
     fn write(session_id: SessionId, payload: &[u8]) -> (r: Datagram)
         ensures r.sid == session_id, r.payload@ == dgram_wire(session_id, payload@),
+            dgram_wire(session_id, payload@).len() == dgram_header_len(session_id) + payload@.len(),
     { unimplemented!() }
+    #[verifier::external_body]
+    fn header_size(session_id: SessionId) -> (r: usize) ensures r == dgram_header_len(session_id), 1 <= r <= 8 { unimplemented!() }
     fn into_quic_bytes(self) -> (r: QBytes) ensures r.b@ == self.payload@ { QBytes { b: self.payload } }
 }
 
@@ -278,15 +281,22 @@ impl QuicConnection {
     fn close(&mut self, error_code: QVarInt, reason: &[u8])
         ensures final(self).closes@ == old(self).closes@.push(error_code.v),
     { unimplemented!() }
-    // assumed: datagrams are never disabled locally on an endpoint this crate configures
+    // assumed: datagrams are never disabled locally on an endpoint this crate configures; quinn
+    // refuses a datagram as TooLarge exactly when it exceeds its current max_datagram_size()
     #[verifier::external_body]
     fn send_datagram(&self, data: QBytes) -> (r: Result<(), QSendDatagramError>)
         ensures r == send_outcome(data.b@), !(r matches Err(QSendDatagramError::Disabled)),
+            (r matches Err(QSendDatagramError::TooLarge)) <==> (quic_max_spec(*self) matches Some(m) && data.b@.len() > m),
     { unimplemented!() }
+    #[verifier::external_body]
+    fn max_datagram_size(&self) -> (r: Option<usize>) ensures r == quic_max_spec(*self) { unimplemented!() }
 }
 // what datagram.rs `Datagram::write(session, payload).into_quic_bytes()` puts on the wire (unit
 // `datagram`: varint(session / 4) || payload)
 uninterp spec fn dgram_wire(session: SessionId, payload: Seq<u8>) -> Seq<u8>;
+uninterp spec fn quic_max_spec(c: QuicConnection) -> Option<usize>;
+// length of varint(session / 4), 1..=8 (unit `datagram`)
+uninterp spec fn dgram_header_len(session: SessionId) -> usize;
 
 //@ extract wtransport/src/error.rs >> enum SendDatagramError
 //@ noderive
